@@ -26,3 +26,24 @@ void __tsan_ignore_thread_begin(void) { }
 void __tsan_ignore_thread_end(void) { }
 /* atomics are not used by kalign; if a change introduces them the link fails loudly in this
    variant only, and the orchestrator reports the variant as unavailable (never a VIOLATION). */
+
+/* C11 atomics / omp atomic lowered to builtins: executed as plain operations (one virtual thread runs
+   at a time) and counted as potential preemption points like any other access. */
+#include <stdint.h>
+typedef int morder;
+#define ATOMICS(N, T) \
+    T __tsan_atomic##N##_load(const volatile T *a, morder mo) { (void)mo; HIT(); return *a; } \
+    void __tsan_atomic##N##_store(volatile T *a, T v, morder mo) { (void)mo; HIT(); *a = v; } \
+    T __tsan_atomic##N##_exchange(volatile T *a, T v, morder mo) { (void)mo; HIT(); T o = *a; *a = v; return o; } \
+    T __tsan_atomic##N##_fetch_add(volatile T *a, T v, morder mo) { (void)mo; HIT(); T o = *a; *a = (T)(o + v); return o; } \
+    T __tsan_atomic##N##_fetch_sub(volatile T *a, T v, morder mo) { (void)mo; HIT(); T o = *a; *a = (T)(o - v); return o; } \
+    T __tsan_atomic##N##_fetch_and(volatile T *a, T v, morder mo) { (void)mo; HIT(); T o = *a; *a = (T)(o & v); return o; } \
+    T __tsan_atomic##N##_fetch_or(volatile T *a, T v, morder mo) { (void)mo; HIT(); T o = *a; *a = (T)(o | v); return o; } \
+    T __tsan_atomic##N##_fetch_xor(volatile T *a, T v, morder mo) { (void)mo; HIT(); T o = *a; *a = (T)(o ^ v); return o; } \
+    T __tsan_atomic##N##_fetch_nand(volatile T *a, T v, morder mo) { (void)mo; HIT(); T o = *a; *a = (T)~(o & v); return o; } \
+    int __tsan_atomic##N##_compare_exchange_strong(volatile T *a, T *c, T v, morder mo, morder fmo) { (void)mo; (void)fmo; HIT(); if (*a == *c) { *a = v; return 1; } *c = *a; return 0; } \
+    int __tsan_atomic##N##_compare_exchange_weak(volatile T *a, T *c, T v, morder mo, morder fmo) { (void)mo; (void)fmo; HIT(); if (*a == *c) { *a = v; return 1; } *c = *a; return 0; } \
+    T __tsan_atomic##N##_compare_exchange_val(volatile T *a, T c, T v, morder mo, morder fmo) { (void)mo; (void)fmo; HIT(); T o = *a; if (o == c) *a = v; return o; }
+ATOMICS(8, uint8_t) ATOMICS(16, uint16_t) ATOMICS(32, uint32_t) ATOMICS(64, uint64_t)
+void __tsan_atomic_thread_fence(morder mo) { (void)mo; }
+void __tsan_atomic_signal_fence(morder mo) { (void)mo; }
